@@ -49,3 +49,7 @@ pub assume_specification<T, A: std::alloc::Allocator, F: FnMut(&T) -> bool>[ Vec
     ensures final(v)@.len() <= old(v)@.len(), forall|j: int| 0 <= j < final(v)@.len() ==> old(v)@.contains(#[trigger] final(v)@[j]);
 /// std::mem::drop: consumes its argument (no observable effect for the plain data the extracted code drops early).
 pub assume_specification<T>[ std::mem::drop::<T> ](x: T);
+/// Result::and_then / Option::and_then with a closure (std definitions, stated through the closure's own specification).
+pub assume_specification<T, E, U, F: FnOnce(T) -> Result<U, E>>[ Result::<T, E>::and_then::<U, F> ](r: Result<T, E>, f: F) -> (o: Result<U, E>)
+    requires r matches Ok(v) ==> f.requires((v,)),
+    ensures match r { Ok(v) => f.ensures((v,), o), Err(e) => o == Err::<U, E>(e) };
